@@ -34,6 +34,24 @@ def gen_cases(ctx, rng):
             cases.append({"dir": rng.choice(["upstream", "downstream"]), "chain": [], "src": src, "horizon": 3600 * 1000 * L.MS, "seed": i,
                           "ops": [{"at": 0, "op": "add", "toxic": L.tx("reset_peer", name="r", timeout=T)}], "reset_T": T})
             stats["reset_peer"] += 1
+    # several connections through the same slow_close toxic at once, their senders closing at different instants: every close is
+    # withheld for the delay counted from THAT connection's close
+    stats["shared_by_connections"] = 0
+    for i in range(12 if ctx.tier == "quick" else 300):
+        d = rng.choice([10, 50, 400, 1000])
+        chain = [L.tx("slow_close", name="c", delay=d)] + ([L.tx("noop", name="m")] if rng.chance(1, 3) else [])
+        nl = rng.range(2, 3)
+        srcs = []
+        for k in range(nl):
+            t, src = rng.range(1, 30) * L.MS + 3, []
+            for _ in range(rng.range(0, 3)):
+                src.append({"at": t, "n": rng.range(1, 2000)})
+                t += rng.range(0, 40) * L.MS + rng.range(0, 999)
+            src.append({"at": t + k * rng.choice([0, d // 2 + 1, d, 2 * d]) * L.MS + rng.range(1, 60) * L.MS + 1, "close": True})
+            srcs.append(src)
+        cases.append({"dir": rng.choice(["upstream", "downstream"]), "chain": chain, "src": srcs[0], "srcs": srcs, "links": nl,
+                      "horizon": 3600 * 1000 * L.MS, "seed": 4000 + i})
+        stats["shared_by_connections"] += 1
     return cases, stats
 
 
